@@ -900,9 +900,21 @@ def run(tier, seed, replay=None):
                "random rest) each as an access and a core PDR; every single-token deletion / duplication / swap / replacement / truncation and every "
                "single-character deletion / duplication / replacement of the seed texts; hand-written outside-grammar texts x UE strings; random PFD "
                "provisioning histories (accept / reject / re-provision / several PFD contexts) interleaved with PDRs naming application ids. "
-               "distinct = distinct harness input; non-trivial = not a plain well-formed text without address, protocol or port constraint")
+               "distinct = distinct harness input; non-trivial = not a plain well-formed text without address, protocol or port constraint; "
+               "UP4 leg: for 5 base filters every variant that differs in exactly one component (protocol, prefix, port, end of the port range, wildcard port) "
+               "and the equal filter again, as SDF filter or PFD application, on two UEs and as two PDR pairs of one session, plus random sequences with "
+               "deletions, on the real UP4 plug-in: every PDR's application id leads to an applications entry carrying that PDR's prefix, protocol and port "
+               "range, and two PDRs share an id iff their filters are equal")
     ck.prove(TARGETS)
     rng = rng_for(seed, "C08")
+    from props import c17up4 as A
+    ck.trusted = ck.trusted + A.TRUSTED
+    if replay is not None and json.load(open(replay))["case"].get("leg") == "up4-app":
+        try:
+            A.run_leg(ck, build_harness(), [json.load(open(replay))["case"]], confirm=False)
+        except HarnessError as e:
+            ck.tie("harness builds and runs against the current tree", False, str(e)[-1500:])
+        return ck.finish()
     if replay is None:
         cases = gen_cases(rng, tier)
     else:
@@ -960,6 +972,9 @@ def run(tier, seed, replay=None):
             ck.fail(sig, what, {"input": i, "step": detail, "impl": o})
     ck.tie("harness inputs reach the code as built (go-pfcp accessor tree = generated request)", bad_tie is None, bad_tie or "")
     ck.distribution = dist
+    if replay is None:
+        # UP4: the applications entries behind the application ids (tools/props/c17up4.py)
+        A.run_leg(ck, binary, A.corpus() + A.c08_histories(random.Random(rng.getrandbits(64)), 40 if tier == "quick" else 1500))
     ck.samples = [{"input": c["in"], "impl": o} for c, o in list(zip(cases, obs))[:3]]
     if replay is not None:
         print(json.dumps({"input": cases[0]["in"], "impl": obs[0], "monitor": monitor(cases[0], obs[0])}, indent=1, default=str))
